@@ -1104,12 +1104,27 @@ func (h *hist) opReopen(clean bool) {
 
 var (
 	timeOld    = time.Date(2001, 1, 1, 0, 0, 0, 0, time.UTC)
-	timeCutoff = time.Date(2010, 1, 1, 0, 0, 0, 0, time.UTC)
+	timeCutoff = time.Date(2010, 1, 1, 0, 0, 0, 0, time.UTC) // earliest cutoff; +0..3s per purge
+	timeRecent = time.Date(2011, 1, 1, 0, 0, 0, 0, time.UTC) // after every cutoff / `when` used
 )
 
-// opPurge: age the first k segment files (mtime 2001), then PurgeOlderThan(2010): exactly those
-// k segments are dropped. The expected remaining content is what a queue opened on a copy of
-// the directory without those k files delivers.
+// purgeFractions: sub-second part of the `when` argument (PurgeOlderThan compares at whole-second
+// resolution: cutoff = when.Truncate(time.Second)). 0 = `when` is a whole second, so that a segment
+// modified exactly at `when` sits exactly on the cutoff.
+var purgeFractions = []time.Duration{0, 0, 0, 1, 300 * time.Millisecond, time.Second - 1}
+
+// opPurge: give the first k segment files a modification time before the cutoff (2001, one second
+// or one nanosecond before it), put the following segment (the "boundary" segment) on or just
+// after the cutoff (exactly at it, +1ns, inside the same second before `when`, exactly at `when`,
+// +1ns, +1s) or leave it untouched, then PurgeOlderThan(when).
+//
+// Oracle, from the modification times read back from the file system: the purge removes a prefix
+// of p whole segments with lo <= p <= hi, where lo = number of leading segments modified before
+// when.Truncate(time.Second) (older than `when` at any resolution: must go) and hi = number of
+// leading segments modified before `when` (a segment modified at or after `when` is not "older
+// than" it: its entries must survive). lo != hi only when the boundary segment lies in
+// [cutoff, when), where both outcomes are accepted. The expected remaining content is what a
+// queue opened on a copy of the directory without those p files delivers.
 func (h *hist) opPurge() {
 	S := snap(h.dir)
 	ids := S.ids()
@@ -1121,27 +1136,148 @@ func (h *hist) opPurge() {
 	default:
 		k = rapid.IntRange(1, len(ids)-1).Draw(h.t, "purgeSegments")
 	}
-	remaining := S.clone()
-	for _, id := range ids[:k] {
-		n := strconv.FormatUint(id, 10)
-		delete(remaining, n)
-		if err := os.Chtimes(filepath.Join(h.dir, n), timeOld, timeOld); err != nil {
+	sec := time.Duration(rapid.IntRange(0, 3).Draw(h.t, "purgeCutoffSecond")) * time.Second
+	frac := rapid.SampledFrom(purgeFractions).Draw(h.t, "purgeWhenFraction")
+	cutoff := timeCutoff.Add(sec)
+	when := cutoff.Add(frac)
+
+	// the k old segments: non-decreasing modification times, all before the cutoff
+	oldKinds := make([]int, k)
+	for i := range oldKinds {
+		oldKinds[i] = rapid.IntRange(0, 3).Draw(h.t, "purgeOldMtime")
+	}
+	sort.Ints(oldKinds)
+	desc := ""
+	set := func(id uint64, mt time.Time) {
+		if err := os.Chtimes(filepath.Join(h.dir, strconv.FormatUint(id, 10)), mt, mt); err != nil {
 			panic(err)
 		}
 	}
+	nearOld := false
+	for i, id := range ids[:k] {
+		switch oldKinds[i] {
+		case 0, 1:
+			set(id, timeOld)
+			desc += " old"
+		case 2:
+			set(id, cutoff.Add(-time.Second))
+			desc += " cutoff-1s"
+			nearOld = true
+		default:
+			set(id, cutoff.Add(-1))
+			desc += " cutoff-1ns"
+			nearOld = true
+		}
+	}
+	boundary := ""
+	if k < len(ids) {
+		id := ids[k]
+		switch bk := rapid.IntRange(0, 9).Draw(h.t, "purgeBoundaryMtime"); {
+		case bk <= 1:
+			boundary = "untouched"
+		case bk <= 4:
+			set(id, cutoff)
+			boundary = "at-cutoff"
+		case bk == 5:
+			set(id, cutoff.Add(1))
+			boundary = "cutoff+1ns"
+		case bk == 6 && frac > 1:
+			set(id, cutoff.Add(frac/2))
+			boundary = "same-second-before-when"
+		case bk == 6 || bk == 7:
+			set(id, when)
+			boundary = "at-when"
+		case bk == 8:
+			set(id, when.Add(1))
+			boundary = "when+1ns"
+		default:
+			set(id, cutoff.Add(time.Second))
+			boundary = "cutoff+1s"
+		}
+		desc += " |" + boundary
+	}
+
+	// segments behind the boundary (and an "untouched" boundary) keep their real, recent
+	// modification time unless an earlier purge of this history left an artificial one on them:
+	// modification times must stay non-decreasing in segment order.
+	for i := k; i < len(ids); i++ {
+		if i == k && boundary != "untouched" {
+			continue
+		}
+		fi, err := os.Stat(filepath.Join(h.dir, strconv.FormatUint(ids[i], 10)))
+		if err != nil {
+			panic(err)
+		}
+		if fi.ModTime().Before(timeRecent) {
+			set(ids[i], timeRecent)
+		}
+	}
+
+	// bounds from the modification times as the file system reports them
+	lo, hi := 0, 0
+	for i, id := range ids {
+		fi, err := os.Stat(filepath.Join(h.dir, strconv.FormatUint(id, 10)))
+		if err != nil {
+			panic(err)
+		}
+		mt := fi.ModTime()
+		if lo == i && mt.Before(cutoff) {
+			lo = i + 1
+		}
+		if hi == i && mt.Before(when) {
+			hi = i + 1
+		}
+	}
+	arg := fmt.Sprintf("%d of %d segments; when=cutoff(+%ds)+%s; mtimes:%s", k, len(ids), int(sec/time.Second), frac, desc)
+	if lo != k {
+		// cannot happen on a file system that stores the times given to Chtimes
+		h.note("purge", arg, nil, fmt.Sprintf("modification times not stored as set: %d leading old segments", lo))
+		h.fail("purge-fixture", "modification times read back differ from those set")
+	}
+
+	err := h.q.PurgeOlderThan(when)
+	if err != nil {
+		h.note("purge", arg, nil, fmt.Sprint(err))
+		h.fail("purge-error", err.Error())
+	}
+	B := snap(h.dir)
+	p := 0
+	for i, id := range ids {
+		_, present := B[strconv.FormatUint(id, 10)]
+		if !present && p == i {
+			p = i + 1
+		} else if !present {
+			h.note("purge", arg, nil, "segments "+S.describe()+" -> "+B.describe())
+			h.fail("purge-removed-non-head-segment", fmt.Sprintf("segment %d was removed although segment %d before it was kept", id, ids[p]))
+		}
+	}
+	h.note("purge", arg, nil, fmt.Sprintf("%v; removed %d segments (must: %d, may: %d)", err, p, lo, hi))
+	if p < lo {
+		h.fail("purge-kept-older-segment", fmt.Sprintf("PurgeOlderThan(%s) removed %d head segments, but %d head segments were last modified before %s", when.Format(time.RFC3339Nano), p, lo, cutoff.Format(time.RFC3339Nano)))
+	}
+	if p > hi {
+		h.fail("purge-dropped-segment-not-older", fmt.Sprintf("PurgeOlderThan(%s) removed %d head segments, but only %d head segments were last modified before that time (boundary segment: %s)", when.Format(time.RFC3339Nano), p, hi, boundary))
+	}
+	remaining := S.clone()
+	for _, id := range ids[:p] {
+		delete(remaining, strconv.FormatUint(id, 10))
+	}
 	want, problem := h.observe(remaining, 0)
 	if problem != "" {
-		h.note("purge", fmt.Sprintf("%d of %d segments", k, len(ids)), nil, problem)
 		h.fail("recovered-queue-unusable", "queue on a subset of whole segment files: "+problem)
 	}
 	// sanity of the prediction: dropping whole head segments leaves a suffix of the content
 	if len(want) > len(h.fifo) || !eqList(want, h.fifo[len(h.fifo)-len(want):]) {
-		h.fail("purge-prediction", fmt.Sprintf("content without the first %d segments %s is not a suffix of %s", k, hexs(want), hexs(h.fifo)))
+		h.fail("purge-prediction", fmt.Sprintf("content without the first %d segments %s is not a suffix of %s", p, hexs(want), hexs(h.fifo)))
 	}
-	err := h.q.PurgeOlderThan(timeCutoff)
-	h.note("purge", fmt.Sprintf("%d of %d segments", k, len(ids)), nil, fmt.Sprint(err))
-	if err != nil {
-		h.fail("purge-error", err.Error())
+	kept := len(want)
+	if p < len(ids) {
+		// entries held by the boundary segment (the one that has to survive)
+		rest := remaining.clone()
+		delete(rest, strconv.FormatUint(ids[p], 10))
+		if w2, pr := h.observe(rest, 0); pr == "" && len(w2) <= len(want) {
+			kept = len(want) - len(w2)
+		}
 	}
 	h.pop(len(h.fifo) - len(want))
 	switch {
@@ -1152,7 +1288,22 @@ func (h *hist) opPurge() {
 	default:
 		rec.Class("purge:head-segments")
 	}
-	if B := snap(h.dir); B.idsMax() > S.idsMax() {
+	if nearOld {
+		rec.Class("purge:old-segment-within-1s-of-cutoff")
+	}
+	if boundary != "" {
+		rec.Class("purge:boundary-segment-" + boundary)
+		if boundary != "untouched" && kept > 0 {
+			rec.Class("purge:boundary-segment-near-cutoff-holds-pending-entries")
+		}
+		if (boundary == "at-cutoff" || boundary == "at-when") && frac == 0 && kept > 0 {
+			rec.Class("purge:segment-exactly-at-whole-second-when-holds-pending-entries(must-survive)")
+		}
+		if lo != hi {
+			rec.Class("purge:boundary-in-same-second-before-when(either-outcome-accepted)")
+		}
+	}
+	if B.idsMax() > S.idsMax() {
 		h.rolled = true
 	}
 	h.checkHead("purge")
@@ -1269,7 +1420,7 @@ func runProfile(t *rapid.T, advanceHeavy bool) {
 			h.opReopen(true)
 		case op < 92:
 			h.opReopen(false)
-		case op < 96:
+		case op < 97:
 			h.opPurge()
 		default:
 			h.opSetMax()
@@ -1313,6 +1464,7 @@ func TestPropQueueHistories(t *testing.T) {
 	rec.Assume("Torn-write model: a crash during an operation leaves the file the operation was writing with a byte prefix of that operation's single write applied over the previous bytes (files never shrink); all other files are as the completed earlier operations left them (every append/advance fsyncs before returning).")
 	rec.Assume("Not modelled: loss of fsynced data, reordering of directory operations (create/unlink) by the file system, crashes during the repair performed by Open itself.")
 	rec.Assume("Caller protocol: Queue.Advance is only called when Current returned an entry; PurgeOlderThan is called with a time in the past; every (re)open uses a fresh Queue value and SharedCount as the replications service does.")
+	rec.Assume("PurgeOlderThan(when) semantics: a head segment last modified before when.Truncate(time.Second) is removed (with its entries), a segment last modified at or after `when` is not older and keeps all its pending entries, purging stops at the first kept segment; for a segment modified in [when.Truncate(time.Second), when) either outcome is accepted. Modification times are set with os.Chtimes (non-decreasing in segment order) and read back.")
 	rec.Assume("Scanner and PeekN skip zero-length entries by design; they are compared with the non-empty entries of the model, Current/Advance with all entries.")
 	rec.Check(t, 1200, 6000, runHistory)
 }
